@@ -141,7 +141,7 @@ func callersPassNonNil(c *Ctx, fn *ssa.Function, prm *ssa.Parameter, neverNil fu
 			idx = i
 		}
 	}
-	callers := c.P.Callers(fn)
+	callers := c.P.RealCallers(fn)
 	if idx < 0 || len(callers) == 0 {
 		return "", false
 	}
@@ -283,7 +283,7 @@ func nilEvidenceAtCallers(c *Ctx, fn *ssa.Function, prm *ssa.Parameter, depth in
 	if idx < 0 || depth > 4 {
 		return ""
 	}
-	for _, ed := range c.P.Callers(fn) {
+	for _, ed := range c.P.RealCallers(fn) {
 		if ed.Site == nil || idx >= len(ed.Site.Common().Args) {
 			continue
 		}
